@@ -102,7 +102,9 @@ Definition obs_agrees (x : nexpr) (o : obs) : bool :=
 Inductive sstep :=
 | StBin (k : binop) (f : form) (o : operand sym) (aliased : bool)   (* aliased: the operand IS self *)
         (exc : Z) (result self_after : obs) (other_after : option obs) (val : sym)
-| StUn (minus : bool) (exc : Z) (result self_after : obs) (val : sym).
+| StUn (minus : bool) (exc : Z) (result self_after : obs) (val : sym)
+| StEdit (i : nat) (t : tok) (exc : Z) (self_after : obs) (val : sym)       (* token i of self edited in place *)
+| StSetValue (d : sym) (exc : Z) (self_after : obs) (val : sym).            (* self.value = d *)
 
 Record ccase := mkccase { c_self : obs; c_steps : list sstep }.
 
@@ -125,6 +127,12 @@ Definition check_step (x : nexpr) (s : sstep) : option nexpr :=
     if (exc =? 0) && obs_agrees (o_result oc) r && obs_agrees (o_self oc) sa
        && sym_eqb (Svalue_add (body (o_result oc))) v
     then Some (o_result oc) else None
+  | StEdit i t exc sa v =>
+    let x' := edit_token x i t in
+    if (exc =? 0) && obs_agrees x' sa && sym_eqb (Svalue_add (body x')) v then Some x' else None
+  | StSetValue d exc sa v =>
+    let x' := set_value sym s_abs s_ltz s_text x d in
+    if (exc =? 0) && obs_agrees x' sa && sym_eqb (Svalue_add (body x')) v then Some x' else None
   end.
 
 Fixpoint check_steps (x : nexpr) (l : list sstep) : bool :=
